@@ -110,8 +110,26 @@ func galOptAreas(as []areaT, ok bool) string {
 	return "(Some " + galAreas(as) + ")"
 }
 
+// panics of the library entry points (ParseFile / WriteFile) observed in-process: each is a violation
+var libPanics []map[string]interface{}
+
+func notePanic(fn, path string, p interface{}) {
+	content, _ := os.ReadFile(path)
+	c := string(content)
+	if len(c) > 1500 {
+		c = c[:1500]
+	}
+	libPanics = append(libPanics, map[string]interface{}{"kind": "panic", "fn": fn, "file": filepath.Base(path), "panic": fmt.Sprint(p), "content": c})
+}
+
 // library path: file.ParseFile + file.WriteFile, exactly what handleFile does
 func libRun(path string) (areas []areaT, parseErr, writeErr error) {
+	defer func() {
+		if p := recover(); p != nil {
+			notePanic("file.ParseFile/WriteFile", path, p)
+			parseErr = fmt.Errorf("panic: %v", p)
+		}
+	}()
 	a, err := file.ParseFile(path)
 	if err != nil {
 		return nil, err, nil
@@ -120,7 +138,15 @@ func libRun(path string) (areas []areaT, parseErr, writeErr error) {
 	return areas, nil, file.WriteFile(path, a)
 }
 
-func parseOnly(path string) ([]areaT, error) {
+func isPanicErr(err error) bool { return err != nil && strings.HasPrefix(err.Error(), "panic:") }
+
+func parseOnly(path string) (as []areaT, perr error) {
+	defer func() {
+		if p := recover(); p != nil {
+			notePanic("file.ParseFile", path, p)
+			perr = fmt.Errorf("panic: %v", p)
+		}
+	}()
 	a, err := file.ParseFile(path)
 	if err != nil {
 		return nil, err
@@ -390,6 +416,9 @@ func runC06(c *Ctx) error {
 		for i, f := range files {
 			a, perr, werr := libRun(filepath.Join(root, "lib", f.name))
 			if perr != nil {
+				if isPanicErr(perr) { // recorded as a violation by libRun
+					continue
+				}
 				return fmt.Errorf("generator bug: go/parser rejects a generated file: %v\n%s", perr, f.in)
 			}
 			if werr != nil {
@@ -475,6 +504,7 @@ func runC06(c *Ctx) error {
 		w.Count("exotic")
 	}
 
+	violations = append(violations, libPanics...)
 	w.Extra["violations"] = violations
 	w.Extra["findings"] = c06Findings(tmp)
 	return w.Flush()
@@ -562,6 +592,9 @@ func runC07(c *Ctx) error {
 		for n := 0; n < k; n++ {
 			a, perr := parseOnly(filepath.Join(dir, name))
 			if perr != nil {
+				if n == 0 && isPanicErr(perr) { // recorded as a violation by parseOnly
+					break
+				}
 				if n == 0 {
 					return fmt.Errorf("generator bug: go/parser rejects a generated file: %v\n%s", perr, in)
 				}
@@ -605,6 +638,7 @@ func runC07(c *Ctx) error {
 			w.Count("files.without-annotation")
 		}
 	}
+	violations = append(violations, libPanics...)
 	w.Extra["violations"] = violations
 	return w.Flush()
 }
@@ -736,7 +770,7 @@ func runC19(c *Ctx) error {
 				parseTerms = append(parseTerms, "("+gal.Str(f.rel)+", "+galOptAreas(a, perr == nil)+")")
 				if perr != nil {
 					parseDesc[f.rel] = "error: " + perr.Error()
-					if f.kind == "valid" {
+					if f.kind == "valid" && !isPanicErr(perr) {
 						return fmt.Errorf("generator bug: go/parser rejects a generated file: %v\n%s", perr, f.content)
 					}
 				} else {
@@ -847,6 +881,7 @@ func runC19(c *Ctx) error {
 				"note": "a field with an @tag comment and no tag literal (D22)"})
 		}
 	}
+	violations = append(violations, libPanics...)
 	w.Extra["violations"] = violations
 	return w.Flush()
 }
